@@ -7,6 +7,11 @@
 // policy's content are compared with a reference model fed the same history.
 // Configuration dimensions: a HostFilter (by data centre / by address set; the model
 // subtracts the nodes it rejects) and a token-aware selection policy.
+// Input dimensions: the KIND of invalid system.peers row (which of the columns a valid
+// peer must have - rpc_address, host_id, data_center, rack, tokens - is missing: each
+// single column in the history alphabets, every subset at session creation / with a
+// later refresh) and bursts of k events for unknown and known addresses inside one
+// debounce window with a bound on the system.peers reads that does not depend on k.
 package main
 
 import (
@@ -43,7 +48,23 @@ type c16cfg struct {
 	// tokenAware: the selection policy is TokenAwareHostPolicy(RoundRobinHostPolicy()) with a session keyspace
 	// (SimpleStrategy rf 1); nodes own widely spaced Murmur3 tokens and queries carry routing keys of every token range.
 	tokenAware bool
+	// kburst: each step is a burst of k status/topology events inside ONE event-debounce window (every event follows the
+	// previous one after 0 or 400ms; the debouncer's window is 1s and restarts with every event): a motif of 1..motifMax
+	// letters of the alphabet, repeated reps times (burst lengths k, 2k, 4k, ...), "fresh" letters naming a new unknown
+	// address at every occurrence. The number of system.peers reads of the step must not exceed maxReadsPerStep whatever k.
+	kburst   bool
+	motifMax [2]int
+	reps     [2][]int
+	// subsets: the kind of invalid system.peers row is a free choice: every non-empty subset of the five columns a valid
+	// peer must have served as NULL, and each single column served as a zero-length value; the row's peer address equal to /
+	// different from the rpc address; the row present when the session is created / appearing with a later refresh.
+	subsets bool
 }
+
+// maxReadsPerStep: the bound on system.peers reads one step (an event, a burst of events) may cause. "A burst of events
+// leads to a bounded number of refreshes": the bound is the same for every burst length the scenarios enumerate (1..8
+// quick, 1..24 thorough), so a number of refreshes that grows with the burst length exceeds it.
+const maxReadsPerStep = 3
 
 type recPolicy16 struct {
 	gocql.HostSelectionPolicy
@@ -60,11 +81,15 @@ func (p recPolicy16) Init(s *gocql.Session) {
 // dbgLogger16 prints the driver's log lines with the virtual clock (development aid: C16_LOG=1 with -replay).
 type dbgLogger16 struct{}
 
-func (dbgLogger16) Print(v ...interface{}) { fmt.Fprintln(os.Stderr, append([]interface{}{"LOG", vs.Clock()}, v...)...) }
+func (dbgLogger16) Print(v ...interface{}) {
+	fmt.Fprintln(os.Stderr, append([]interface{}{"LOG", vs.Clock()}, v...)...)
+}
 func (dbgLogger16) Printf(format string, v ...interface{}) {
 	fmt.Fprintf(os.Stderr, "LOG %v "+strings.TrimRight(format, "\n")+"\n", append([]interface{}{vs.Clock()}, v...)...)
 }
-func (dbgLogger16) Println(v ...interface{}) { fmt.Fprintln(os.Stderr, append([]interface{}{"LOG", vs.Clock()}, v...)...) }
+func (dbgLogger16) Println(v ...interface{}) {
+	fmt.Fprintln(os.Stderr, append([]interface{}{"LOG", vs.Clock()}, v...)...)
+}
 
 func (p recPolicy16) Pick(q gocql.ExecutableQuery) gocql.NextHost {
 	inner := p.HostSelectionPolicy.Pick(q)
@@ -120,7 +145,7 @@ func (c *c16cfg) rejected(h vhost) bool {
 func (c *c16cfg) knownOf(v *cview) map[string]string {
 	m := map[string]string{}
 	for _, h := range v.hosts {
-		if !h.noTok && !c.rejected(h) {
+		if !h.invalid() && !c.rejected(h) {
 			m[h.id] = h.ip
 		}
 	}
@@ -136,7 +161,7 @@ var wideTokens = map[string]string{
 // host applies the scenario's variations to a node: distinct peer address, wide tokens.
 func (c *c16cfg) host(h vhost) vhost {
 	h = withPeer(h, c.distinct)
-	if c.tokenAware && !h.noTok {
+	if c.tokenAware && !h.invalid() {
 		if t, ok := wideTokens[h.id]; ok {
 			h.tokens = []string{t}
 		}
@@ -254,7 +279,22 @@ func debouncerBody() {
 	vs.Observe("%v", got)
 }
 
-func (c *c16cfg) body(depth int) {
+// columnSubsets: every non-empty subset of the columns a valid peer must have (in validityCols order).
+func columnSubsets() [][]string {
+	var out [][]string
+	for m := 1; m < 1<<len(validityCols); m++ {
+		var cols []string
+		for i, col := range validityCols {
+			if m&(1<<i) != 0 {
+				cols = append(cols, col)
+			}
+		}
+		out = append(out, cols)
+	}
+	return out
+}
+
+func (c *c16cfg) body(depth int, tier int) {
 	if c.name == "event-debouncer-delivers-every-frame" {
 		debouncerBody()
 		return
@@ -265,6 +305,26 @@ func (c *c16cfg) body(depth int) {
 	view := &cview{hosts: []vhost{c.host(hA), c.host(hB)}}
 	if c.filter != "" {
 		view.hosts = append(view.hosts, c.host(hF))
+	}
+	// subsets scenario: the invalid row of node X (kind, peer address, when it appears) is chosen first
+	var xRow vhost
+	var forced []string // letters applied before the freely chosen ones
+	if c.subsets {
+		xRow = hX
+		xRow.noTok = false
+		xRow.tokens = []string{"5000"}
+		subs := columnSubsets()
+		if k := vs.Choose(len(subs)+len(validityCols), vs.Free); k < len(subs) {
+			xRow.nullCols = subs[k]
+		} else {
+			xRow.emptyCols = []string{validityCols[k-len(subs)]}
+		}
+		xRow = withPeer(xRow, vs.Choose(2, vs.Free) == 1)
+		if vs.Choose(2, vs.Free) == 0 {
+			view.hosts = append(view.hosts, xRow) // reported when the session is created
+		} else {
+			forced = []string{"X-reported-as-chosen"} // appears with a later refresh
+		}
 	}
 	var peersLog, localLog []string
 	// host-filter scenarios: lastRejContact = number of system.peers reads served so far at the moment a node the
@@ -422,6 +482,7 @@ func (c *c16cfg) body(depth int) {
 	known := c.knownOf(view) // id -> ip, as last reported by a successful refresh
 	down := map[string]bool{}
 	var hist []string
+	var reads []int          // system.peers reads per step
 	ctl := func() *sysnode { // the node currently holding the control connection
 		for _, sn := range nodes {
 			for _, sc := range sn.registered {
@@ -454,6 +515,24 @@ func (c *c16cfg) body(depth int) {
 		if sn := ctl(); sn != nil {
 			sn.push(&frame.EventStatusChange{Change: change, Addr: ipBytes(ip), Port: 9042})
 		}
+	}
+
+	// invalidRow: the invalid system.peers row of the current view a ring entry (host id / address) comes from, if any.
+	// Every consequence of such a row being accepted (ring entry, pool = the node was dialled, policy offering) is reported
+	// under the one key c16:invalid-peer-known:without-<missing columns>.
+	invalidRow := func(id, addr string) (string, bool) {
+		for _, h := range view.hosts {
+			if h.invalid() && (h.id == id || h.ip == addr || h.nodeIP() == addr) {
+				var cols []string
+				for _, col := range validityCols {
+					if h.absent(col) {
+						cols = append(cols, col)
+					}
+				}
+				return "without-" + strings.Join(cols, "+"), true
+			}
+		}
+		return "", false
 	}
 
 	check := func(ev string) {
@@ -504,6 +583,10 @@ func (c *c16cfg) body(depth int) {
 					vs.Failf("c16:host-filter:rejected-host-known", "host %s@%s is rejected by the host filter (%s) but is in the ring %s; snapshot %+v", id[len(id)-2:], addr, c.filter, where, snap)
 					continue
 				}
+				if kind, inv := invalidRow(id, addr); inv {
+					vs.Failf("c16:invalid-peer-known:"+kind, "host %s@%s is in the ring but its system.peers row is not a valid peer (%s) %s; snapshot %+v", id[len(id)-2:], addr, kind, where, snap)
+					continue
+				}
 				vs.Failf("c16:vanished-host-still-known", "host %s@%s is in the ring but the cluster no longer reports it %s; snapshot %+v", id[len(id)-2:], addr, where, snap)
 			}
 		}
@@ -534,6 +617,10 @@ func (c *c16cfg) body(depth int) {
 					vs.Failf("c16:host-filter:pool-for-rejected-host", "a connection pool exists for host %s which the host filter (%s) rejects %s", id[len(id)-2:], c.filter, where)
 					continue
 				}
+				if kind, inv := invalidRow(id, snap.Hosts[id]); inv {
+					vs.Failf("c16:invalid-peer-known:"+kind, "a connection pool exists for host %s whose system.peers row is not a valid peer (%s): the node was dialled %s", id[len(id)-2:], kind, where)
+					continue
+				}
 				vs.Failf("c16:pool-for-vanished-host", "a connection pool exists for host %s which the cluster no longer reports %s", id[len(id)-2:], where)
 			}
 		}
@@ -555,7 +642,9 @@ func (c *c16cfg) body(depth int) {
 				if offeredOK(o, known, down) {
 					continue
 				}
-				if rejectedAddr(o) {
+				if kind, inv := invalidRow("", o); inv {
+					vs.Failf("c16:invalid-peer-known:"+kind, "the selection policy at rest offers host %s whose system.peers row is not a valid peer (%s) %s", o, kind, where)
+				} else if rejectedAddr(o) {
 					vs.Failf("c16:host-filter:rejected-host-in-policy", "the selection policy offers host %s which the host filter (%s) rejects (routing key %q) %s", o, c.filter, key, where)
 				} else {
 					vs.Failf("c16:policy-offers-unknown-or-down-host", "the selection policy at rest offers host %s which is not a known up host (routing key %q; offered in all: %v; known %v, down %v) %s", o, key, offers, known, down, where)
@@ -569,6 +658,7 @@ func (c *c16cfg) body(depth int) {
 	var lastStatus map[string]string // address -> last status event of the current step
 	var dBefore int
 	viewChanged := false
+	fresh := 0
 	apply := func(ev string) bool {
 		applied := true
 		switch ev {
@@ -687,6 +777,68 @@ func (c *c16cfg) body(depth int) {
 			}
 			vs.Sleep(2500 * time.Millisecond)
 			blocked = false
+		case "X-reported-as-chosen":
+			view.hosts = append(view.hosts, xRow)
+			pushTopo("NEW_NODE", xRow.ip)
+		case "X-reported-complete", "B-reported-complete", "X-reported-without:rpc_address", "X-reported-without:host_id", "X-reported-without:data_center", "X-reported-without:rack", "X-reported-without:tokens",
+			"B-reported-without:rpc_address", "B-reported-without:host_id", "B-reported-without:data_center", "B-reported-without:rack", "B-reported-without:tokens":
+			// node X (10.0.0.5, not a member at the start) / the known node B is reported by system.peers with a complete row or
+			// with one of the columns a valid peer must have NULL; a topology event announces the change
+			row := c.host(hB)
+			if ev[0] == 'X' {
+				row = hX
+				row.noTok, row.tokens = false, []string{"5000"}
+				if c.subsets {
+					row.peerIP = xRow.peerIP
+				}
+				row = c.host(row)
+			}
+			if i := strings.Index(ev, ":"); i >= 0 {
+				row.nullCols = []string{ev[i+1:]}
+			}
+			before := view.String()
+			replaced := false
+			for i, h := range view.hosts {
+				if h.id == row.id {
+					view.hosts[i] = row
+					replaced = true
+				}
+			}
+			if !replaced {
+				view.hosts = append(view.hosts, row)
+			}
+			if view.String() == before {
+				applied = false
+				break
+			}
+			pushTopo("NEW_NODE", row.ip)
+		case "X-leaves":
+			if !has(view, hX.id, hX.ip) {
+				applied = false
+				break
+			}
+			without(view, hX.id)
+			pushTopo("REMOVED_NODE", hX.ip)
+		case "up-X":
+			pushStatus("UP", hX.ip)
+			lastStatus[hX.ip] = "UP"
+		case "down-X":
+			pushStatus("DOWN", hX.ip)
+			lastStatus[hX.ip] = "DOWN"
+		case "topology-event":
+			pushTopo("NEW_NODE", hA.ip)
+		case "up-fresh-unknown", "down-fresh-unknown", "new-node-fresh-unknown":
+			// an event for an address no node was ever reported at, a new one at every occurrence
+			fresh++
+			ip := fmt.Sprintf("10.0.0.%d", 20+fresh)
+			switch ev {
+			case "up-fresh-unknown":
+				pushStatus("UP", ip)
+			case "down-fresh-unknown":
+				pushStatus("DOWN", ip)
+			default:
+				pushTopo("NEW_NODE", ip)
+			}
 		case "down-unknown":
 			pushStatus("DOWN", "10.0.0.9")
 		case "up-unknown":
@@ -713,7 +865,9 @@ func (c *c16cfg) body(depth int) {
 				}
 				err := q.WithContext(context.Background()).Exec()
 				for _, o := range offers {
-					if !offeredOK(o, known, down) {
+					if kind, inv := invalidRow("", o); inv && !offeredOK(o, known, down) {
+						vs.Failf("c16:invalid-peer-known:"+kind, "a query was offered host %s whose system.peers row is not a valid peer (%s) after history %v", o, kind, hist)
+					} else if !offeredOK(o, known, down) {
 						vs.Failf("c16:offered-unknown-or-down-host", "a query (routing key %q) was offered host %s which is not a known up host (known %v, down %v) after history %v", key, o, known, down, hist)
 					}
 				}
@@ -724,13 +878,46 @@ func (c *c16cfg) body(depth int) {
 		}
 		return applied
 	}
-	for step := 0; step < depth; step++ {
-		ev := c.events[vs.Choose(len(c.events), vs.Free)]
+	if c.subsets {
+		check("session-creation")
+	}
+	for step := 0; step < len(forced)+depth; step++ {
+		var ev string
+		burstNeedsRefresh := false
+		if step < len(forced) {
+			ev = forced[step]
+		} else if !c.kburst {
+			ev = c.events[vs.Choose(len(c.events), vs.Free)]
+		}
 		_, dBefore, _ = vs.Deviations()
 		peersBefore := len(peersLog)
 		lastStatus = map[string]string{}
 		viewBefore := view.String()
-		applied := apply(ev)
+		applied := true
+		if c.kburst {
+			motif := make([]string, 1+vs.Choose(c.motifMax[tier], vs.Free))
+			for i := range motif {
+				motif[i] = c.events[vs.Choose(len(c.events), vs.Free)]
+				if strings.HasPrefix(motif[i], "up-") && strings.HasSuffix(motif[i], "unknown") || strings.HasPrefix(motif[i], "new-node") {
+					burstNeedsRefresh = true
+				}
+			}
+			reps := c.reps[tier][vs.Choose(len(c.reps[tier]), vs.Free)]
+			spacing := []time.Duration{0, 400 * time.Millisecond}[vs.Choose(2, vs.Free)]
+			n := 0
+			for r := 0; r < reps; r++ {
+				for _, m := range motif {
+					if n > 0 && spacing > 0 {
+						vs.Sleep(spacing)
+					}
+					apply(m)
+					n++
+				}
+			}
+			ev = fmt.Sprintf("burst-of-%d[%s]x%d/%v", n, strings.Join(motif, ","), reps, spacing)
+		} else {
+			applied = apply(ev)
+		}
 		if c.burst {
 			// a second event follows after a gap, possibly while the refresh caused by the first is in flight
 			gaps := c.gaps
@@ -824,28 +1011,39 @@ func (c *c16cfg) body(depth int) {
 				}
 			}
 		}
+		needsRefresh := burstNeedsRefresh || strings.HasPrefix(ev, "X-reported") || strings.HasPrefix(ev, "B-reported") || ev == "X-leaves" || ev == "topology-event"
 		mustRefresh := map[string]bool{"add-C": true, "remove-B": true, "move-B": true, "replace-B-by-D": true, "invalid-peer": true, "duplicate-row": true, "up-unknown": true, "control-loss": true,
 			"add-G(rejected)": true, "remove-F(rejected)": true, "B-turns-rejected": true, "B-returns": true, "control-loss-while-accepted-nodes-refuse-connections": true}
-		if applied && (mustRefresh[ev] || (c.burst && viewChanged)) && !refreshed && !uncertain {
+		if applied && (mustRefresh[ev] || needsRefresh || (c.burst && viewChanged)) && !refreshed && !uncertain {
 			_, d, _ := vs.Deviations()
 			if d == 0 {
 				kev := ev
 				if c.burst {
 					kev = "a-burst-overlapping-a-slow-refresh"
 				}
+				if c.kburst {
+					kev = "a-burst-with-an-UP-or-NEW_NODE-for-an-unknown-address"
+				}
 				vs.Failf("c16:no-refresh-after-"+kev, "event %s did not lead to a successful refresh within 4s after history %v (peers reads: %v)", ev, hist, peersLog[peersBefore:])
 			}
 		}
-		if n := len(peersLog) - peersBefore; n > 3 {
-			vs.Failf("c16:unbounded-refreshes", "event %s caused %d system.peers reads (history %v)", ev, n, hist)
+		if n := len(peersLog) - peersBefore; n > maxReadsPerStep {
+			vs.Failf("c16:unbounded-refreshes", "event %s caused %d system.peers reads, more than the bound %d that holds for every burst length (history %v)", ev, n, maxReadsPerStep, hist)
 		}
+		reads = append(reads, len(peersLog)-peersBefore)
 		check(ev)
 	}
 	if dbg := os.Getenv("C16_DEBUG"); dbg != "" && strings.Contains(strings.Join(hist, ","), dbg) {
 		fmt.Fprintf(os.Stderr, "C16_DEBUG history=%v choices=%v\n", hist, vs.ChoicesSoFar())
 	}
 	sort.Strings(hist[:0])
-	vs.Observe("%s -> known=%d down=%d", strings.Join(hist, ","), len(known), len(down))
+	if c.subsets {
+		vs.Observe("X=%s/%s %s -> known=%d down=%d", (&cview{hosts: []vhost{xRow}}).String(), xRow.nodeIP(), strings.Join(hist, ","), len(known), len(down))
+	} else if c.kburst {
+		vs.Observe("%s -> known=%d down=%d reads=%v", strings.Join(hist, ","), len(known), len(down), reads)
+	} else {
+		vs.Observe("%s -> known=%d down=%d", strings.Join(hist, ","), len(known), len(down))
+	}
 	vs.Quiet(true)
 	sess.Close()
 	vs.Quiet(false)
@@ -853,7 +1051,7 @@ func (c *c16cfg) body(depth int) {
 
 func (c *c16cfg) build(tier int) func() *vs.Scenario {
 	return func() *vs.Scenario {
-		return &vs.Scenario{Name: fmt.Sprintf("%s-depth%d", c.name, c.depth[tier]), Cfg: vs.Config{MaxSteps: 400000, Horizon: 120 * time.Second, DelayBounded: c.name != "event-debouncer-delivers-every-frame"}, Body: func() { c.body(c.depth[tier]) }}
+		return &vs.Scenario{Name: fmt.Sprintf("%s-depth%d", c.name, c.depth[tier]), Cfg: vs.Config{MaxSteps: 400000, Horizon: 120 * time.Second, DelayBounded: c.name != "event-debouncer-delivers-every-frame"}, Body: func() { c.body(c.depth[tier], tier) }}
 	}
 }
 
@@ -868,7 +1066,7 @@ func main() {
 		{name: "status-histories", events: status, depth: [2]int{4, 5}, t: [2]int{0, 0}},
 		{name: "fault-histories", events: faults, depth: [2]int{4, 5}, t: [2]int{0, 0}},
 		{name: "distinct-rpc-and-peer-addresses", events: []string{"down-B", "up-B", "remove-B", "add-C", "move-B", "replace-B-by-D", "query"}, distinct: true, depth: [2]int{3, 4}, t: [2]int{0, 0}},
-		{name: "bursts-with-slow-refresh", events: []string{"add-C", "add-E", "remove-B", "down-B", "up-B"}, burst: true, depth: [2]int{1, 2}, t: [2]int{0, 0}},
+		{name: "bursts-with-slow-refresh", events: []string{"add-C", "add-E", "remove-B", "down-B", "up-B", "up-unknown"}, burst: true, depth: [2]int{1, 2}, t: [2]int{0, 0}},
 		// the second event arrives at the very instant the first one's debounce period ends (the batch is being dispatched)
 		{name: "bursts-at-the-debounce-instant-wide", events: []string{"down-B", "up-B", "add-C", "remove-B"}, burst: true, gaps: []time.Duration{time.Second, 2 * time.Second}, depth: [2]int{1, 1}, t: [2]int{0, 2}},
 		{name: "event-debouncer-delivers-every-frame", depth: [2]int{0, 0}, t: [2]int{-1, -1}},
@@ -879,6 +1077,16 @@ func main() {
 		{name: "host-filter-by-dc-fault-histories", filter: "dc", events: filterFaults, depth: [2]int{3, 4}, t: [2]int{0, 0}},
 		{name: "host-filter-by-address-fault-histories", filter: "addr", events: filterFaults, depth: [2]int{3, 4}, t: [2]int{0, 0}},
 		// a token-aware selection policy with a session keyspace; queries routed to every token range
+		// kinds of invalid system.peers rows: a joining node X / the known node B reported without one of the columns a valid peer must have
+		{name: "invalid-peer-row-kinds-new-node-histories", events: []string{"X-reported-without:rpc_address", "X-reported-without:host_id", "X-reported-without:data_center", "X-reported-without:rack", "X-reported-without:tokens",
+			"X-reported-complete", "X-leaves", "up-X", "query"}, depth: [2]int{3, 4}, t: [2]int{0, 0}},
+		{name: "invalid-peer-row-kinds-known-node-histories", events: []string{"B-reported-without:rpc_address", "B-reported-without:host_id", "B-reported-without:data_center", "B-reported-without:rack", "B-reported-without:tokens",
+			"B-reported-complete", "remove-B", "up-B", "down-B", "query"}, depth: [2]int{3, 4}, t: [2]int{0, 0}},
+		// every subset of missing columns x peer address = / != rpc address x present at session creation / appearing later, then a short history
+		{name: "invalid-peer-row-column-subsets", subsets: true, events: []string{"X-reported-complete", "up-X", "topology-event", "query"}, depth: [2]int{1, 2}, t: [2]int{0, 0}},
+		// bursts of k events inside one debounce window for unknown and known addresses: the number of system.peers reads is bounded whatever k
+		{name: "status-event-bursts-of-k", kburst: true, events: []string{"up-fresh-unknown", "down-fresh-unknown", "up-unknown", "up-B", "down-B", "new-node-fresh-unknown"},
+			motifMax: [2]int{2, 3}, reps: [2][]int{{1, 2, 4}, {1, 2, 4, 8}}, depth: [2]int{1, 1}, t: [2]int{0, 0}},
 		{name: "token-aware-policy-histories", tokenAware: true, events: []string{"add-C", "remove-B", "move-B", "replace-B-by-D", "down-B", "up-B", "query"}, depth: [2]int{3, 4}, t: [2]int{0, 0}},
 	}
 	findRoutingKeys()
@@ -898,9 +1106,9 @@ func main() {
 		defs = append(defs, mcreport.Def{Name: fmt.Sprintf("%s-depth%d", c.name, c.depth[tier]), Build: c.build(tier), Quick: b(c.t[0]), Thorough: b(c.t[1])})
 	}
 	mcreport.Main("C16", "model_checking",
-		"explicit enumeration of every event history up to the depth bound (3 quick, 4 thorough; each event a free choice point) over three alphabets - topology refreshes (add, remove, address change, new host id on an old address, invalid peer row, duplicate row), status events for known and unknown addresses, control-connection loss and refresh failure - each with a query; after every event the system settles for 4s of virtual time under the default schedule and the ring indexes, pools, host states, the hosts offered to queries and the complete content of the selection policy (its host iterator drained at rest) are compared with a reference model; one alphabet is additionally explored with schedule/timer deviations. Session-configuration dimensions: a HostFilter (none / DataCentreHostFilter / WhiteListHostFilter address set) x two 8-letter alphabets (histories of length 3 quick, 4 thorough) with nodes the filter rejects in the cluster from the start, joining, leaving, getting UP/DOWN events, a known node turning into a rejected one (re-labelled into another data centre / moved to an address outside the set) and returning, and a rejected node among the contact points that control-connection reconnection attempts reach while the accepted nodes refuse connections (the model subtracts rejected nodes; a rejected node must have no pool and not be in the policy ever, and not be in the ring once a refresh has completed since it was last contacted); the selection policy (round-robin / token-aware over round-robin with a session keyspace, nodes owning widely spaced Murmur3 tokens, queries and policy drains for a routing key of every token range)",
+		"explicit enumeration of every event history up to the depth bound (3 quick, 4 thorough; each event a free choice point) over three alphabets - topology refreshes (add, remove, address change, new host id on an old address, invalid peer row, duplicate row), status events for known and unknown addresses, control-connection loss and refresh failure - each with a query; after every event the system settles for 4s of virtual time under the default schedule and the ring indexes, pools, host states, the hosts offered to queries and the complete content of the selection policy (its host iterator drained at rest) are compared with a reference model; one alphabet is additionally explored with schedule/timer deviations. Session-configuration dimensions: a HostFilter (none / DataCentreHostFilter / WhiteListHostFilter address set) x two 8-letter alphabets (histories of length 3 quick, 4 thorough) with nodes the filter rejects in the cluster from the start, joining, leaving, getting UP/DOWN events, a known node turning into a rejected one (re-labelled into another data centre / moved to an address outside the set) and returning, and a rejected node among the contact points that control-connection reconnection attempts reach while the accepted nodes refuse connections (the model subtracts rejected nodes; a rejected node must have no pool and not be in the policy ever, and not be in the ring once a refresh has completed since it was last contacted); the selection policy (round-robin / token-aware over round-robin with a session keyspace, nodes owning widely spaced Murmur3 tokens, queries and policy drains for a routing key of every token range). Kinds of invalid system.peers rows (a valid peer has rpc_address, host_id, data_center, rack and tokens): two alphabets in which a joining node X / the known node B is reported with each ONE of the five columns NULL, complete again, leaving, with UP/DOWN events and queries (9 and 10 letters, histories of length 3 quick / 4 thorough), and the column-subset space: every non-empty subset of the five columns NULL (31) plus each single column as a zero-length value / empty set (5) x peer address equal to / different from the rpc address x row present when the session is created / appearing with a later refresh, followed by every history of length 1 (2 thorough) over {row completed, UP for X, another topology event, query}; a node whose row is invalid must not be in any ring index, have a pool (be dialled) or be offered by the policy. Bursts of k events inside one event-debounce window (every event 0 or 400ms after the previous one; the 1s window restarts with each event): every motif of 1-2 (thorough 1-3) letters over {UP / DOWN / NEW_NODE for a fresh unknown address at every occurrence, UP for one fixed unknown address, UP / DOWN for the known node B} repeated 1, 2, 4 (thorough also 8) times = burst lengths 1..8 (1..24), x the two spacings; the number of system.peers reads a step causes must not exceed 3 - the bound the two-event burst scenarios already use - for every burst length, and a burst with an UP or NEW_NODE for an unknown address must lead to a refresh",
 		[]string{"5 (8 with a host filter) scripted nodes that serve system.local / system.peers from the harness's cluster view and push events on the control connection; 1 connection per host; ReconnectInterval 0; events reach the driver only through the control connection",
 			"histories are run under the default schedule (T=0) except where stated: interleavings inside one event's processing are explored only in the dedicated scenario",
 			"the token-aware policy gets its keyspace metadata (SimpleStrategy rf 1) from the harness instead of the schema tables (the substitution policies_test.go makes); replica placement itself is C10's"},
-		defs, 80*time.Second, 41*time.Minute, nil) // thorough: the budget is shared by the scenarios (13 x ~3.1 min, as before the host-filter / token-aware scenarios were added: 8 x ~3.1 min)
+		defs, 80*time.Second, 54*time.Minute, nil) // thorough: the budget is shared by the scenarios (17 x ~3.1 min, the share the scenarios had before the invalid-row / k-burst scenarios were added: 13 x ~3.1 min)
 }
